@@ -168,10 +168,15 @@ func recordOne(tid int, rng *rand.Rand) ([]tev, []string, error) {
 			procs[p] = append(procs[p], opT{"Remove", o.n}) // the same process owns the remove function
 		}
 	}
-	yields := make([][]bool, recProcs+1)
+	// seeded pauses between the calls of a process, so that the processes really interleave
+	yields := make([][]int, recProcs+1)
 	for p := range procs {
 		for range procs[p] {
-			yields[p] = append(yields[p], rng.Intn(3) == 0)
+			y := 0
+			if rng.Intn(3) != 0 {
+				y = 1 + rng.Intn(4)
+			}
+			yields[p] = append(yields[p], y)
 		}
 	}
 	lis := []*recListener{nil, {r: r, i: 1, rng: rand.New(rand.NewSource(rng.Int63()))}, {r: r, i: 2, rng: rand.New(rand.NewSource(rng.Int63()))}}
@@ -270,7 +275,7 @@ func recordOne(tid int, rng *rand.Rand) ([]tev, []string, error) {
 			defer general.Done()
 			<-start
 			for k, o := range procs[p] {
-				if yields[p][k] {
+				for y := 0; y < yields[p][k]; y++ {
 					runtime.Gosched()
 				}
 				do(p, o)
